@@ -227,12 +227,6 @@ class Fragment:
 
         if propagate_domains:
             self._propagate_domains(missing_domain)
-            # Not only the domains created by this call: the same fragment may be prepared several times
-            # (e.g. simulated and then converted), and must have the same ports each time.
-            for domain in self._implicit_domains:
-                ports.append((None, domain.clk, PortDirection.Input))
-                if domain.rst is not None:
-                    ports.append((None, domain.rst, PortDirection.Input))
 
         def resolve_signal(signal):
             if isinstance(signal, _ast.ClockSignal):
@@ -250,6 +244,16 @@ class Fragment:
             (name, resolve_signal(signal), dir)
             for name, signal, dir in ports
         ]
+
+        if propagate_domains:
+            # Not only the domains created by this call: the same fragment may be prepared several times
+            # (e.g. simulated and then converted), and must have the same ports each time.
+            for domain in self._implicit_domains:
+                for signal in (domain.clk, domain.rst):
+                    # The clock or reset may have been requested as a port already, as `ClockSignal()`
+                    # or `ResetSignal()`.
+                    if signal is not None and not any(signal is port for _name, port, _dir in ports):
+                        ports.append((None, signal, PortDirection.Input))
 
         fragment = DomainLowerer()(self)
 
